@@ -9,11 +9,11 @@ namespace MsiProofs.PoolText
 open MsiModel MsiModel.Bytes MsiModel.Pkg
 
 section
-variable (A : List Char → Prop)
+variable (C : Nat → Prop) (A : List Char → Prop)
 
 def EntryT (e : List Char × Nat) : Prop := A e.1 ∧ e.2 < 65536 ∧ (e.1 = [] → e.2 = 0)
-/-- the pool is fit to be written: a supported code page, every entry fit -/
-def PT (p : Pool) : Prop := p.codepage < Gen.cpVariants.length ∧ ∀ e ∈ p.strings, EntryT A e
+/-- the pool is fit to be written: a code page satisfying `C` (e.g. "supported", or "UTF-8"), every entry fit -/
+def PT (p : Pool) : Prop := C p.codepage ∧ ∀ e ∈ p.strings, EntryT A e
 /-- a value the library may be handed (as stored: "" has become null) -/
 def ValT : Value → Prop
   | .str s => A s ∧ s ≠ []
@@ -63,7 +63,7 @@ theorem increfScan_pt (s : List Char) (hs : A s) (hne : s ≠ []) : ∀ (l : Lis
           · exact ih (idx + 1) rest' _ hr (fun e he => hl e (by simp [he])) e he
 
 theorem incref_pt (p : Pool) (s : List Char) (hs : A s) (hne : s ≠ []) (p' : Pool) (r : Nat)
-    (h : p.incref s = .ok (p', r)) (hp : PT A p) : PT A p' := by
+    (h : p.incref s = .ok (p', r)) (hp : PT C A p) : PT C A p' := by
   unfold Pool.incref at h
   cases hsc : Pool.increfScan s p.strings 0 with
   | some x =>
@@ -123,25 +123,25 @@ theorem decrefAt_pt (h0 : A []) : ∀ (l : List (List Char × Nat)) (i : Nat) (l
         · exact hl _ (by simp)
         · exact ih j r' hr (fun e he => hl e (by simp [he])) e he
 
-theorem decref_pt (h0 : A []) (p : Pool) (r : Nat) (hp : PT A p) : PT A (p.decref r) := by
+theorem decref_pt (h0 : A []) (p : Pool) (r : Nat) (hp : PT C A p) : PT C A (p.decref r) := by
   unfold Pool.decref
   cases hd : Pool.decrefAt p.strings (r - 1) with
   | none => exact hp
   | some l' => exact ⟨hp.1, decrefAt_pt A h0 p.strings (r - 1) l' hd hp.2⟩
 
-theorem remove_pt (h0 : A []) (p : Pool) (c : Cell) (hp : PT A p) : PT A (Cell.remove p c) := by
+theorem remove_pt (h0 : A []) (p : Pool) (c : Cell) (hp : PT C A p) : PT C A (Cell.remove p c) := by
   cases c with
-  | str r => exact decref_pt A h0 p r hp
+  | str r => exact decref_pt C A h0 p r hp
   | null => exact hp
   | int n => exact hp
 
-theorem foldl_remove_pt (h0 : A []) (cells : List Cell) : ∀ p, PT A p → PT A (cells.foldl Cell.remove p) := by
+theorem foldl_remove_pt (h0 : A []) (cells : List Cell) : ∀ p, PT C A p → PT C A (cells.foldl Cell.remove p) := by
   induction cells with
   | nil => intro p h; exact h
-  | cons c cs ih => intro p h; exact ih _ (remove_pt A h0 p c h)
+  | cons c cs ih => intro p h; exact ih _ (remove_pt C A h0 p c h)
 
 theorem create_pt (p : Pool) (v : Value) (hv : ValT A v) (p' : Pool) (c : Cell)
-    (h : Cell.create p v = .ok (p', c)) (hp : PT A p) : PT A p' := by
+    (h : Cell.create p v = .ok (p', c)) (hp : PT C A p) : PT C A p' := by
   cases v with
   | null => cases h; exact hp
   | int n => cases h; exact hp
@@ -152,12 +152,12 @@ theorem create_pt (p : Pool) (v : Value) (hv : ValT A v) (p' : Pool) (c : Cell)
       obtain ⟨q, r⟩ := x
       simp only [hi, pure, Res.ok.injEq, Prod.mk.injEq] at h
       obtain ⟨rfl, -⟩ := h
-      exact incref_pt A p s hv.1 hv.2 q r hi hp
+      exact incref_pt C A p s hv.1 hv.2 q r hi hp
     | err k => simp [hi] at h
     | panic w => simp [hi] at h
 
 theorem createCells_pt (vs : List Value) : ∀ (p : Pool) (acc : List Cell) (p' : Pool) (cs : List Cell),
-    (∀ v ∈ vs, ValT A v) → createCells p vs acc = .ok (p', cs) → PT A p → PT A p' := by
+    (∀ v ∈ vs, ValT A v) → createCells p vs acc = .ok (p', cs) → PT C A p → PT C A p' := by
   induction vs with
   | nil => intro p acc p' cs _ h hp; simp only [createCells, pure, Res.ok.injEq, Prod.mk.injEq] at h; rw [← h.1]; exact hp
   | cons v vs ih =>
@@ -167,12 +167,12 @@ theorem createCells_pt (vs : List Value) : ∀ (p : Pool) (acc : List Cell) (p' 
     | ok x =>
       obtain ⟨q, c⟩ := x
       simp only [hc] at h
-      exact ih q _ p' cs (fun v' hv' => hv v' (by simp [hv'])) h (create_pt A p v (hv v (by simp)) q c hc hp)
+      exact ih q _ p' cs (fun v' hv' => hv v' (by simp [hv'])) h (create_pt C A p v (hv v (by simp)) q c hc hp)
     | err k => simp [hc] at h
     | panic w => simp [hc] at h
 
 theorem addRows_pt (keyIdx : List Nat) (rows : List (List Value)) : ∀ (p : Pool) (m : RowMap) (p' : Pool) (m' : RowMap),
-    (∀ r ∈ rows, ∀ v ∈ r, ValT A v) → addRows keyIdx p rows m = .ok (p', m') → PT A p → PT A p' := by
+    (∀ r ∈ rows, ∀ v ∈ r, ValT A v) → addRows keyIdx p rows m = .ok (p', m') → PT C A p → PT C A p' := by
   induction rows with
   | nil => intro p m p' m' _ h hp; simp only [addRows, pure, Res.ok.injEq, Prod.mk.injEq] at h; rw [← h.1]; exact hp
   | cons r rs ih =>
@@ -187,13 +187,13 @@ theorem addRows_pt (keyIdx : List Nat) (rows : List (List Value)) : ∀ (p : Poo
       | some m1 =>
         simp only [hm] at h
         exact ih q m1 p' m' (fun r' hr' => hv r' (by simp [hr'])) h
-          (createCells_pt A r p [] q cells (hv r (by simp)) hc hp)
+          (createCells_pt C A r p [] q cells (hv r (by simp)) hc hp)
     | err k => simp [hc] at h
     | panic w => simp [hc] at h
 
 theorem deleteGo_pt (h0 : A []) (t : Table) (cond : Option Ast) (rows : List (List Cell)) :
     ∀ (p : Pool) (acc : List (List Cell)) (p' : Pool) (kept : List (List Cell)),
-    deleteGo t cond p rows acc = .ok (p', kept) → PT A p → PT A p' := by
+    deleteGo t cond p rows acc = .ok (p', kept) → PT C A p → PT C A p' := by
   induction rows with
   | nil => intro p acc p' kept h hp; simp only [deleteGo, pure, Res.ok.injEq, Prod.mk.injEq] at h; rw [← h.1]; exact hp
   | cons r rs ih =>
@@ -203,13 +203,13 @@ theorem deleteGo_pt (h0 : A []) (t : Table) (cond : Option Ast) (rows : List (Li
     | ok del =>
       simp only [he] at h
       cases del with
-      | true => simp only [if_true] at h; exact ih _ _ p' kept h (foldl_remove_pt A h0 r p hp)
+      | true => simp only [if_true] at h; exact ih _ _ p' kept h (foldl_remove_pt C A h0 r p hp)
       | false => simp only [Bool.false_eq_true, if_false] at h; exact ih _ _ p' kept h hp
     | err k => simp [he] at h
     | panic w => simp [he] at h
 
 theorem cellsUpd_pt (h0 : A []) (us : List (Nat × Value)) : ∀ (p : Pool) (cells : List Cell) (p' : Pool) (cells' : List Cell),
-    (∀ u ∈ us, ValT A u.2) → cellsUpd p cells us = .ok (p', cells') → PT A p → PT A p' := by
+    (∀ u ∈ us, ValT A u.2) → cellsUpd p cells us = .ok (p', cells') → PT C A p → PT C A p' := by
   induction us with
   | nil => intro p cells p' cells' _ h hp; simp only [cellsUpd, pure, Res.ok.injEq, Prod.mk.injEq] at h; rw [← h.1]; exact hp
   | cons u us ih =>
@@ -222,13 +222,13 @@ theorem cellsUpd_pt (h0 : A []) (us : List (Nat × Value)) : ∀ (p : Pool) (cel
       obtain ⟨q, c⟩ := x
       simp only [hc] at h
       exact ih q _ p' cells' (fun u' hu' => hv u' (by simp [hu'])) h
-        (create_pt A _ v (hv (i, v) (by simp)) q c hc (remove_pt A h0 p old hp))
+        (create_pt C A _ v (hv (i, v) (by simp)) q c hc (remove_pt C A h0 p old hp))
     | err k => simp [hc] at h
     | panic w => simp [hc] at h
 
 theorem updApply_pt (h0 : A []) (ups : List (Nat × Value)) (hv : ∀ u ∈ ups, ValT A u.2) (rows : List (List Cell)) :
     ∀ (p : Pool) (pl : List (List Value × Bool)) (acc : List (List Cell)) (p' : Pool) (rows' : List (List Cell)),
-    updApply ups p rows pl acc = .ok (p', rows') → PT A p → PT A p' := by
+    updApply ups p rows pl acc = .ok (p', rows') → PT C A p → PT C A p' := by
   induction rows with
   | nil => intro p pl acc p' rows' h hp; simp only [updApply, pure, Res.ok.injEq, Prod.mk.injEq] at h; rw [← h.1]; exact hp
   | cons r rs ih =>
@@ -245,7 +245,7 @@ theorem updApply_pt (h0 : A []) (ups : List (Nat × Value)) (hv : ∀ u ∈ ups,
         | ok x =>
           obtain ⟨q, cells'⟩ := x
           simp only [hc] at h
-          exact ih q pl' _ p' rows' h (cellsUpd_pt A h0 ups p r q cells' hv hc hp)
+          exact ih q pl' _ p' rows' h (cellsUpd_pt C A h0 ups p r q cells' hv hc hp)
         | err k => simp [hc] at h
         | panic w => simp [hc] at h
 
@@ -271,7 +271,7 @@ theorem storeRows_pool (s : Pkg) (t : Table) (rows : List (List Cell)) : (storeR
   cases t.writeRows rows <;> rfl
 
 theorem insertExec_pt (s : Pkg) (tname : List Char) (rows : List (List Value))
-    (hrows : ∀ r ∈ rows, ∀ v ∈ r, ValA A v) (hp : PT A s.pool) : PT A (insertExec s tname rows).1.pool := by
+    (hrows : ∀ r ∈ rows, ∀ v ∈ r, ValA A v) (hp : PT C A s.pool) : PT C A (insertExec s tname rows).1.pool := by
   unfold insertExec
   cases hf : s.findTable tname with
   | none => exact hp
@@ -300,14 +300,14 @@ theorem insertExec_pt (s : Pkg) (tname : List Char) (rows : List (List Value))
             obtain ⟨pool', m'⟩ := x
             simp only
             rw [storeRows_pool]
-            refine addRows_pt A _ _ _ _ _ _ ?_ ha hp
+            refine addRows_pt C A _ _ _ _ _ _ ?_ ha hp
             intro r hr v hv
             obtain ⟨r0, hr0, rfl⟩ := List.mem_map.mp hr
             obtain ⟨v0, hv0, rfl⟩ := List.mem_map.mp hv
             exact valT_storable A v0 (hrows r0 hr0 v0 hv0)
 
-theorem deleteExec_pt (h0 : A []) (s : Pkg) (tname : List Char) (cond : Option Ast) (hp : PT A s.pool) :
-    PT A (deleteExec s tname cond).1.pool := by
+theorem deleteExec_pt (h0 : A []) (s : Pkg) (tname : List Char) (cond : Option Ast) (hp : PT C A s.pool) :
+    PT C A (deleteExec s tname cond).1.pool := by
   unfold deleteExec
   cases hf : s.findTable tname with
   | none => exact hp
@@ -326,11 +326,11 @@ theorem deleteExec_pt (h0 : A []) (s : Pkg) (tname : List Char) (cond : Option A
         obtain ⟨pool', kept⟩ := x
         simp only
         rw [storeRows_pool]
-        exact deleteGo_pt A h0 t cond rows s.pool [] pool' kept hd hp
+        exact deleteGo_pt C A h0 t cond rows s.pool [] pool' kept hd hp
 
 theorem upd_tail_pt (h0 : A []) (s : Pkg) (t : Table) (ups : List (Nat × Value)) (hv : ∀ u ∈ ups, ValT A u.2)
-    (rows : List (List Cell)) (planned : List (List Value × Bool)) (dup : Bool) (order : List Nat) (hp : PT A s.pool) :
-    PT A (if dup = true then (s, Res.err ErrKind.alreadyExists) else
+    (rows : List (List Cell)) (planned : List (List Value × Bool)) (dup : Bool) (order : List Nat) (hp : PT C A s.pool) :
+    PT C A (if dup = true then (s, Res.err ErrKind.alreadyExists) else
       match updApply ups s.pool rows planned [] with
       | .err k => (s, .err k)
       | .panic w => (s, .panic w)
@@ -346,10 +346,10 @@ theorem upd_tail_pt (h0 : A []) (s : Pkg) (t : Table) (ups : List (Nat × Value)
       obtain ⟨pool', rows'⟩ := x
       simp only
       rw [storeRows_pool]
-      exact updApply_pt A h0 ups hv rows s.pool planned [] pool' rows' hu hp
+      exact updApply_pt C A h0 ups hv rows s.pool planned [] pool' rows' hu hp
 
 theorem updateExec_pt (h0 : A []) (s : Pkg) (tname : List Char) (ups : List (List Char × Value)) (cond : Option Ast)
-    (hups : ∀ u ∈ ups, ValA A u.2) (hp : PT A s.pool) : PT A (updateExec s tname ups cond).1.pool := by
+    (hups : ∀ u ∈ ups, ValA A u.2) (hp : PT C A s.pool) : PT C A (updateExec s tname ups cond).1.pool := by
   unfold updateExec
   cases hf : s.findTable tname with
   | none => exact hp
@@ -370,7 +370,7 @@ theorem updateExec_pt (h0 : A []) (s : Pkg) (tname : List Char) (ups : List (Lis
         | err k => exact hp
         | panic w => exact hp
         | ok planned =>
-          refine upd_tail_pt A h0 s t _ ?_ _ _ _ _ hp
+          refine upd_tail_pt C A h0 s t _ ?_ _ _ _ _ hp
           intro u hu
           obtain ⟨x, hx, hxu⟩ := List.mem_filterMap.mp hu
           cases hi : t.indexOfColumn x.1 with
@@ -383,25 +383,25 @@ theorem updateExec_pt (h0 : A []) (s : Pkg) (tname : List Char) (ups : List (Lis
 
 def RowsA (rows : List (List Value)) : Prop := ∀ r ∈ rows, ∀ v ∈ r, ValA A v
 
-theorem insertRows_pt (s : Pkg) (tn : List Char) (rows : List (List Value)) (hr : RowsA A rows) (hp : PT A s.pool) :
-    PT A (insertRows s tn rows).1.pool :=
-  insertExec_pt A { s with finisher := true } tn rows hr hp
+theorem insertRows_pt (s : Pkg) (tn : List Char) (rows : List (List Value)) (hr : RowsA A rows) (hp : PT C A s.pool) :
+    PT C A (insertRows s tn rows).1.pool :=
+  insertExec_pt C A { s with finisher := true } tn rows hr hp
 
-theorem deleteRows_pt (h0 : A []) (s : Pkg) (tn : List Char) (cond : Option Ast) (hp : PT A s.pool) :
-    PT A (deleteRows s tn cond).1.pool :=
-  deleteExec_pt A h0 { s with finisher := true } tn cond hp
+theorem deleteRows_pt (h0 : A []) (s : Pkg) (tn : List Char) (cond : Option Ast) (hp : PT C A s.pool) :
+    PT C A (deleteRows s tn cond).1.pool :=
+  deleteExec_pt C A h0 { s with finisher := true } tn cond hp
 
 /-- `create_table` with a schema whose texts satisfy `A` -/
 theorem createTable_pt (s : Pkg) (name : List Char) (cols : List Column)
     (h1 : RowsA A (catalogRowsColumns name cols)) (h2 : RowsA A [[.str name]])
-    (h3 : RowsA A (catalogRowsValidation name cols)) (hp : PT A s.pool) :
-    PT A (createTable s name cols).1.pool := by
+    (h3 : RowsA A (catalogRowsValidation name cols)) (hp : PT C A s.pool) :
+    PT C A (createTable s name cols).1.pool := by
   unfold createTable
   cases hce : createError s name cols with
   | some k => exact hp
   | none =>
     simp only
-    have g1 := insertRows_pt A s Gen.nameColumns.toList _ h1 hp
+    have g1 := insertRows_pt C A s Gen.nameColumns.toList _ h1 hp
     generalize hr1 : insertRows s Gen.nameColumns.toList (catalogRowsColumns name cols) = r1 at g1
     obtain ⟨s1, res1⟩ := r1
     cases res1 with
@@ -410,7 +410,7 @@ theorem createTable_pt (s : Pkg) (name : List Char) (cols : List Column)
     | ok u =>
       cases u
       simp only
-      have g2 := insertRows_pt A s1 Gen.nameTables.toList _ h2 g1
+      have g2 := insertRows_pt C A s1 Gen.nameTables.toList _ h2 g1
       generalize hr2 : insertRows s1 Gen.nameTables.toList [[.str name]] = r2 at g2
       obtain ⟨s2, res2⟩ := r2
       cases res2 with
@@ -419,16 +419,16 @@ theorem createTable_pt (s : Pkg) (name : List Char) (cols : List Column)
       | ok u =>
         cases u
         simp only
-        exact insertRows_pt A _ Gen.nameValidation.toList _ h3 g2
+        exact insertRows_pt C A _ Gen.nameValidation.toList _ h3 g2
 
-theorem foldl_rows_pt (h0 : A []) (rows : List (List Cell)) : ∀ p, PT A p →
-    PT A (rows.foldl (fun p r => r.foldl Cell.remove p) p) := by
+theorem foldl_rows_pt (h0 : A []) (rows : List (List Cell)) : ∀ p, PT C A p →
+    PT C A (rows.foldl (fun p r => r.foldl Cell.remove p) p) := by
   induction rows with
   | nil => intro p h; exact h
-  | cons r rs ih => intro p h; exact ih _ (foldl_remove_pt A h0 r p h)
+  | cons r rs ih => intro p h; exact ih _ (foldl_remove_pt C A h0 r p h)
 
-theorem dropTable_pt (h0 : A []) (s : Pkg) (name : List Char) (hp : PT A s.pool) :
-    PT A (dropTable s name).1.pool := by
+theorem dropTable_pt (h0 : A []) (s : Pkg) (name : List Char) (hp : PT C A s.pool) :
+    PT C A (dropTable s name).1.pool := by
   unfold dropTable
   split; · exact hp
   split; · exact hp
@@ -436,7 +436,7 @@ theorem dropTable_pt (h0 : A []) (s : Pkg) (name : List Char) (hp : PT A s.pool)
   | none => exact hp
   | some t =>
     simp only
-    have g1 : PT A (if Cont.exists_ s.cont t.streamName = true then
+    have g1 : PT C A (if Cont.exists_ s.cont t.streamName = true then
         match s.loadRows t with
         | .err k => (s, Res.err k)
         | .panic w => (s, Res.panic w)
@@ -448,7 +448,7 @@ theorem dropTable_pt (h0 : A []) (s : Pkg) (name : List Char) (hp : PT A s.pool)
       · cases s.loadRows t with
         | err k => exact hp
         | panic w => exact hp
-        | ok rows => exact foldl_rows_pt A h0 rows s.pool hp
+        | ok rows => exact foldl_rows_pt C A h0 rows s.pool hp
       · exact hp
     generalize hr1 : (if Cont.exists_ s.cont t.streamName = true then
         match s.loadRows t with
@@ -465,7 +465,7 @@ theorem dropTable_pt (h0 : A []) (s : Pkg) (name : List Char) (hp : PT A s.pool)
     | ok u =>
       cases u
       simp only
-      have g2 := deleteRows_pt A h0 s1 Gen.nameValidation.toList (eqStr "Table" name) g1
+      have g2 := deleteRows_pt C A h0 s1 Gen.nameValidation.toList (eqStr "Table" name) g1
       generalize hr2 : deleteRows s1 Gen.nameValidation.toList (eqStr "Table" name) = r2 at g2
       obtain ⟨s2, res2⟩ := r2
       cases res2 with
@@ -474,7 +474,7 @@ theorem dropTable_pt (h0 : A []) (s : Pkg) (name : List Char) (hp : PT A s.pool)
       | ok u =>
         cases u
         simp only
-        have g3 := deleteRows_pt A h0 s2 Gen.nameColumns.toList (eqStr "Table" name) g2
+        have g3 := deleteRows_pt C A h0 s2 Gen.nameColumns.toList (eqStr "Table" name) g2
         generalize hr3 : deleteRows s2 Gen.nameColumns.toList (eqStr "Table" name) = r3 at g3
         obtain ⟨s3, res3⟩ := r3
         cases res3 with
@@ -483,7 +483,7 @@ theorem dropTable_pt (h0 : A []) (s : Pkg) (name : List Char) (hp : PT A s.pool)
         | ok u =>
           cases u
           simp only
-          have g4 := deleteRows_pt A h0 s3 Gen.nameTables.toList (eqStr "Name" name) g3
+          have g4 := deleteRows_pt C A h0 s3 Gen.nameTables.toList (eqStr "Name" name) g3
           generalize hr4 : deleteRows s3 Gen.nameTables.toList (eqStr "Name" name) = r4 at g4
           obtain ⟨s4, res4⟩ := r4
           cases res4 with
